@@ -68,6 +68,54 @@ type c20State struct {
 	saved     []string
 	runErrs   []string
 	hostsUsed map[string]bool
+	// txPairs: per database session with an open transaction, the pairs whose
+	// position that transaction has read or written (independent of the
+	// runner events: observed at the database only)
+	txPairs map[*fakepg.Tx]map[string]bool
+}
+
+// c20OnExecute watches position statements at the database: two open
+// transactions working on the position of one (source, integration) pair at
+// the same time mean two runners drive that pair at once.
+func (w *World) c20OnExecute(connID int, owner, sql string, params []fakepg.Value, tx *fakepg.Tx) {
+	st := w.c20
+	if st == nil || tx == nil {
+		return
+	}
+	var a, b int
+	switch pgClassShort(strings.ToLower(strings.Join(strings.Fields(sql), " "))) {
+	case "cursor-select", "cursor-delete":
+		a, b = 0, 1
+	case "cursor-insert":
+		a, b = 1, 2
+	default:
+		return
+	}
+	if len(params) <= b {
+		return
+	}
+	pair := fmt.Sprintf("%v/%v", params[a], params[b])
+	open := w.srv.OpenTxs()
+	st.mu.Lock()
+	defer st.mu.Unlock()
+	if st.txPairs == nil {
+		st.txPairs = map[*fakepg.Tx]map[string]bool{}
+	}
+	for t := range st.txPairs {
+		if _, ok := open[t]; !ok {
+			delete(st.txPairs, t)
+		}
+	}
+	for t, ps := range st.txPairs {
+		if t != tx && ps[pair] {
+			w.violate("two-transactions-one-pair", "two open database transactions work on the position of pair %s at the same time (sessions %d and %d): the pair is driven by two runners at once", pair, open[t], connID)
+		}
+	}
+	if st.txPairs[tx] == nil {
+		st.txPairs[tx] = map[string]bool{}
+	}
+	st.txPairs[tx][pair] = true
+	w.stat("probe_position_statements_watched", 1)
 }
 
 func (w *World) c20HookEvent(name string, kv ...any) {
@@ -177,6 +225,7 @@ func RunC20(t *testing.T, plan *Plan, st *core.Stream, extra Extra, keepLog bool
 			}
 			theWorld = w
 			w.c20 = state
+			w.srv.OnExecute = w.c20OnExecute
 			w.onHookEvent = w.c20HookEvent
 			defer func() { theWorld = nil }()
 			w.setup = true
